@@ -357,7 +357,10 @@ fn layout_cmd(args: &[String]) -> Value {
         let wr = ShmWriter::new(&path).expect("new");
         let drift = 4_294_967_000u32;
         let mut up = clock_bound_d::verif_writer::Updater::new(Box::new(SendW(wr)), drift);
-        for (leap, st) in [(0u16, 1u8), (3, 2), (7, 0)] {
+        // what is expected in the bytes is what the CODE decided to publish (its own classification and bound of the
+        // report: those are C10's and C07's business); this check is about where the bytes are
+        let (mut have, mut eb) = (false, 0i64);
+        for leap in [0u16, 3, 7] {
             let t = Tracking {
                 ref_id: 0,
                 ip_addr: ChronyAddr::default(),
@@ -374,10 +377,16 @@ fn layout_cmd(args: &[String]) -> Value {
                 root_dispersion: 0.0078125.into(),
                 last_update_interval: 16.0.into(),
             };
+            let (raw, cls) = clock_bound_d::verif_writer::bound_and_status(t);
+            if cls == 1 {
+                have = true;
+                eb = raw + 5;
+            }
             poison_stack();
             up.clock_update(t, 5, libc::timespec { tv_sec: 123456, tv_nsec: 789 });
-            // bound 7812500 + 5 and as_of are those of the first (synchronised) report throughout
-            emit(&mut f, &mut id, (123456, 789), (124456, 0), 7_812_505, drift, 0, st, "Updater::clock_update");
+            let st = if have { cls } else { 0 };
+            let (ea, ev) = if have { ((123456, 789), (124456, 0)) } else { ((0, 0), (1000, 0)) };
+            emit(&mut f, &mut id, ea, ev, if have { eb } else { 0 }, drift, 0, st, "Updater::clock_update");
         }
     }
     f.flush().unwrap();
